@@ -166,9 +166,11 @@ func callContradicts(cs ssa.CallInstruction, in ssa.Instruction) bool {
 // factHolds: on every way to instruction in, a guard satisfying match holds — as a dominating guard, through the
 // callers of a private helper (guardedIP), or as the consequence of a validation helper's outcome that a dominating
 // guard tests:
-//   err := checkIncoming(t, id); if err != nil { return }      the fact holds at every return of the helper that can yield nil
-//   ws := pickWebseed(t, idle); if ws == nil { return }         … at every return that can yield a non-nil value
-//   if !allowed(t) { return }                                   … at every return that can yield true
+//
+//	err := checkIncoming(t, id); if err != nil { return }      the fact holds at every return of the helper that can yield nil
+//	ws := pickWebseed(t, idle); if ws == nil { return }         … at every return that can yield a non-nil value
+//	if !allowed(t) { return }                                   … at every return that can yield true
+//
 // (recursively, two levels). match must judge a guard by what it tests, not by identity with local values.
 func (p *Prog) factHolds(in ssa.Instruction, match func(g Guard) bool, depth int) bool {
 	if p.guardedIP(in, match, 0) {
